@@ -849,6 +849,10 @@ def model_input(w):
             if ev:
                 out.append((i, f"advgce {t[1]} {ev.group(1)} {ev.group(3)} {ev.group(2)}"))
         elif t[0] in ("merge", "clear", "restart", "fp"):
+            if t[0] == "restart" and (parse_fp(fp) or {}).get("state") == "p":
+                # restarted between `welcome` and `accept`: the group is still pending, which is Model.Welcome's business
+                # (C16); the client model joins at `accept` and a restart of a client without a group is a no-op in it
+                continue
             out.append((i, f"{t[0]} {t[1]}"))
         elif t[0] == "advupdate":
             continue        # stand-alone Update proposals are outside the model: inert on the current tree (oracle: refused-with-effect on Q)
@@ -1007,7 +1011,9 @@ def oracle_c11(pairs):
                 last[c] = et
             return out
         ra, rb = heads(a), heads(b)
-        first = next(((x, y) for x, y in zip(ra, rb) if x[0] != y[0] or x[1] != y[1]), None)
+        # the first call that differs in its answer OR in whether it moved the client (a commit of one's own that loses the
+        # comparison answers `commit` either way — return_own_commit — but only the uninterrupted client rolls back for it)
+        first = next(((x, y) for x, y in zip(ra, rb) if x[0] != y[0] or x[1] != y[1] or x[2] != y[2]), None)
         if first and first[0][0] != first[1][0]:
             first = None            # the scripts themselves forked (the generator looks at the state): nothing to compare further
         if va == vb and first is None:
@@ -1021,9 +1027,10 @@ def oracle_c11(pairs):
             sig = "hydrated-timestamp-zero"
             if first:
                 what += f" | first differing call `{first[0][0]}`: without={first[0][1]} with={first[1][1]}"
-                if first[0][0].startswith("deliver") and first[1][1].startswith("commit") and not first[0][1].startswith("commit"):
+                what += f" (client moved: without={first[0][2]} with={first[1][2]})"
+                if first[0][0].startswith("deliver") and first[1][1].startswith("commit") and first[1][2] and not first[0][1].startswith("commit"):
                     sig = "restart-enables-rollback"
-                elif not (first[0][0].startswith("deliver") and first[1][1] == "unprocessable" and not first[1][2]
+                elif not (first[0][0].startswith("deliver") and first[1][1] in ("unprocessable", "commit") and not first[1][2]
                           and (first[0][1].startswith("commit") or first[0][2]) and restart_since_rival_applied(b, first[1][3])):
                     # the known defect: after the restart a delivery is REFUSED (unprocessable) and the client stays where it
                     # was, while the uninterrupted client accepted the commit or at least rolled back for it (the latter is
@@ -1037,8 +1044,11 @@ def oracle_c11(pairs):
 
 def replay_world(path, wid=None):
     """execute a stored command trace (corpus / replay file) on the harness; result lines in the file are ignored"""
-    w = World(wid or f"corpus:{os.path.basename(path)}")
-    cmds = [l.strip() for l in open(path) if l.strip() and not l.startswith("#")]
+    return replay_cmds([l.strip() for l in open(path) if l.strip() and not l.startswith("#")], wid or f"corpus:{os.path.basename(path)}")
+
+def replay_cmds(cmds, wid):
+    """execute a list of command lines on a fresh harness"""
+    w = World(wid)
     backends, retention, admins, members = [], 5, [0], None
     try:
         for c in cmds:
